@@ -214,3 +214,8 @@ if __name__ == '__main__':
     except E.MachineryError as e:
         print(f'MACHINERY-FAILURE {PID}: {e}', file=sys.stderr)
         sys.exit(2)
+    except Exception as e:  # unexpected harness error: machinery failure, never a verdict
+        import traceback
+        traceback.print_exc()
+        print(f'MACHINERY-FAILURE {PID}: unexpected {type(e).__name__}: {e}', file=sys.stderr)
+        sys.exit(2)
